@@ -1,4 +1,4 @@
-SPECIFICATION SpecS
+SPECIFICATION SpecP
 CONSTANTS
   K = 3
   MaxLeaves = 2
@@ -15,11 +15,11 @@ CONSTANTS
   SMCells2 <- CellsS2
   SMWeights = {}
   MaxOps = 3
-  PLeaves = 2
-  PCells <- CellsS2
+  PLeaves = 4
+  PCells <- CellsSAG
   TipsNarrowed = FALSE
   Shipped = FALSE
 INVARIANT TreeOk
-INVARIANT PureScore
-PROPERTY MovesKeepTree
+INVARIANT PurePass
+PROPERTY MapUnchanged
 CHECK_DEADLOCK FALSE
